@@ -1140,3 +1140,130 @@ Example pinned_pdu_encoded_len_refuted :
   wf_pdu (witness_pdu CRCFlag_Present) /\
   blen (pdu_encode (witness_pdu CRCFlag_Present)) <> Pinned.pdu_encoded_len (witness_pdu CRCFlag_Present).
 Proof. split; [apply witness_pdu_wf|]. rewrite pdu_len_holds by apply witness_pdu_wf. vm_compute. discriminate. Qed.
+
+(* ------------------------------------------------------------------ the loops never run out of fuel:
+   each iteration consumes at least one byte, so any fuel >= the buffer length gives the same
+   result; the model's Err on exhausted fuel is unreachable and no loop of the decoder spins *)
+
+Lemma tlv_progress b t r : is_bytes b -> tlv_decode b = Ok (t, r) -> is_bytes r /\ blen r < blen b.
+Proof.
+  intros Hb H. destruct (tlv_ok _ _ _ Hb H) as (_ & Hr & Hl). split; [exact Hr|].
+  unfold tlv_encoded_len in Hl. lia.
+Qed.
+
+Lemma segment_progress f b s r :
+  is_bytes b -> segment_decode f b = Ok (s, r) -> is_bytes r /\ blen r < blen b.
+Proof.
+  intros Hb H. destruct (segment_ok _ _ _ _ Hb H) as (_ & Hr & Hl). split; [exact Hr|].
+  destruct f; cbn [fss_len] in Hl; lia.
+Qed.
+
+Lemma metadata_options_fuel fuel b :
+  is_bytes b -> (length b <= fuel)%nat -> repeat_dec fuel tlv_decode b = repeat_until_empty tlv_decode b.
+Proof. apply repeat_dec_fuel. exact tlv_progress. Qed.
+
+Lemma nak_segments_fuel f fuel b :
+  is_bytes b -> (length b <= fuel)%nat ->
+  repeat_dec fuel (segment_decode f) b = repeat_until_empty (segment_decode f) b.
+Proof. apply repeat_dec_fuel. exact (segment_progress f). Qed.
+
+Lemma finished_loop_fuel c : forall f1 f2 b,
+  is_bytes b -> (length b <= f1)%nat -> (length b <= f2)%nat ->
+  finished_loop f1 c b = finished_loop f2 c b.
+Proof.
+  induction f1 as [|f1 IH]; intros f2 b Hb H1 H2.
+  - destruct b; [destruct f2; reflexivity | cbn [length] in H1; lia].
+  - destruct b as [|x b']; [destruct f2; reflexivity|].
+    cbn [length] in H1, H2. destruct f2 as [|f2]; [lia|].
+    apply is_bytes_cons in Hb as [Hx Hb'].
+    cbn [finished_loop]. rewrite read_u8_cons. cbn [bind].
+    destruct (of_option (MetadataTLVFieldCode_from_u8 x)) as [code| |]; cbn [bind]; try reflexivity.
+    destruct (fin_classify c code); try reflexivity.
+    + destruct (read_lv b') as [[v r]| |] eqn:E; cbn [bind]; try reflexivity.
+      destruct (read_lv_ok _ _ _ Hb' E) as (_ & _ & Hr & Hl).
+      destruct (fs_response_decode v) as [[q r']| |]; cbn [bind]; try reflexivity.
+      rewrite !blen_length in Hl. rewrite (IH f2 r) by (auto; lia). reflexivity.
+    + destruct (varid_decode b') as [[i r]| |] eqn:E; cbn [bind]; try reflexivity.
+      destruct (varid_decode_ok _ _ _ Hb' E) as (_ & Hr & Hl).
+      rewrite !blen_length in Hl. rewrite (IH f2 r) by (auto; lia). reflexivity.
+Qed.
+
+Lemma loops_fuel_independent_holds :
+  (forall fuel b, is_bytes b -> (length b <= fuel)%nat ->
+     repeat_dec fuel tlv_decode b = repeat_until_empty tlv_decode b) /\
+  (forall f fuel b, is_bytes b -> (length b <= fuel)%nat ->
+     repeat_dec fuel (segment_decode f) b = repeat_until_empty (segment_decode f) b) /\
+  (forall c fuel b, is_bytes b -> (length b <= fuel)%nat ->
+     finished_loop fuel c b = finished_loop (length b) c b).
+Proof.
+  splits; [exact metadata_options_fuel | exact nak_segments_fuel |].
+  intros c fuel b Hb H. apply finished_loop_fuel; auto.
+Qed.
+
+(* ------------------------------------------------------------------ interface to the CRC algebra (C15):
+   a PDU accepted with the CRC flag set is a prefix of the input whose last two octets are the
+   CRC-16 of everything before them, i.e. Model/Crc.v's [crc_frame_ok] holds of the consumed frame *)
+
+Lemma read_be_suffix k b v r : read_be k b = Ok (v, r) -> exists c, b = c ++ r /\ blen c = N.of_nat k.
+Proof.
+  unfold read_be. intros H. inv_ok H. apply read_exact_inv in E as (-> & Hc & _). eauto.
+Qed.
+Lemma read_varid_suffix n b i r : read_varid n b = Ok (i, r) -> exists c, b = c ++ r.
+Proof.
+  unfold read_varid. intros H. inv_ok H. apply read_exact_inv in E as (-> & _ & _). eauto.
+Qed.
+
+Lemma header_suffix b h r : header_decode b = Ok (h, r) -> exists hb, b = hb ++ r.
+Proof.
+  intros H. unfold header_decode in H. inv_ok H.
+  repeat match goal with
+  | E : read_u8 _ = Ok _ |- _ => apply read_u8_inv in E; subst
+  | E : read_be _ _ = Ok _ |- _ => apply read_be_suffix in E as (? & -> & _)
+  | E : read_varid _ _ = Ok _ |- _ => apply read_varid_suffix in E as (? & ->)
+  end.
+  match goal with |- exists hb, ?x :: ?a ++ ?y :: ?c ++ ?d ++ ?e ++ r = _ =>
+    exists (x :: a ++ y :: c ++ d ++ e) end.
+  cbn [app]. rewrite <- !app_assoc. cbn [app]. rewrite <- !app_assoc. reflexivity.
+Qed.
+
+Lemma crc_frame_ok_intro (m c : bytes) :
+  blen c = 2 -> crc16 m = be_decode c -> crc_frame_ok (m ++ c) = true.
+Proof.
+  intros Hc Hcrc. destruct c as [|hi [|lo [|z c']]];
+    rewrite ?blen_cons, ?blen_nil in Hc; try lia.
+  unfold crc_frame_ok. rewrite app_length. cbn [length].
+  replace (length m + 2 - 2)%nat with (length m) by lia.
+  rewrite skipn_app, Nat.sub_diag, skipn_all. cbn [skipn app].
+  rewrite firstn_app, Nat.sub_diag, firstn_all. cbn [firstn]. rewrite app_nil_r.
+  rewrite Hcrc, !be_decode_cons, be_decode_nil, blen_cons, blen_nil.
+  change (256 ^ (1 + 0)) with 256. change (256 ^ 0) with 1.
+  replace (hi * 256 + (lo * 1 + 0)) with (hi * 256 + lo) by lia. rewrite N.eqb_refl. cbn [andb].
+  apply N.leb_le. lia.
+Qed.
+
+Lemma pdu_decode_crc_frame b p :
+  is_bytes b -> pdu_decode b = Ok p -> h_crc (pdu_hdr p) = CRCFlag_Present ->
+  exists frame rest, b = frame ++ rest /\ crc_frame_ok frame = true /\
+    blen frame = header_encoded_len (pdu_hdr p) + h_len (pdu_hdr p) + 2.
+Proof.
+  intros Hb H Hcrc. unfold pdu_decode in H. inv_ok H.
+  match goal with E : header_decode b = Ok (?h, ?r) |- _ =>
+    destruct (header_suffix _ _ _ E) as (hb & Hhb);
+    destruct (header_ok _ _ _ Hb E) as (_ & Hr & Hlen) end.
+  match goal with E : read_exact _ _ = Ok _ |- _ => apply read_exact_inv in E as (Hd & Hdl & _) end.
+  match goal with H : match h_crc ?h with _ => _ end = Ok p |- _ =>
+    destruct (h_crc h) eqn:Ec; [inversion H; subst; cbn [pdu_hdr] in Hcrc; congruence|] end.
+  inv_ok H.
+  match goal with E : read_exact 2 _ = Ok _ |- _ => apply read_exact_inv in E as (Hc & Hcl & _) end.
+  match goal with H : (if ?t then _ else _) = Ok p |- _ => destruct t eqn:Et; [|discriminate H];
+    inversion H; subst p; clear H end.
+  apply N.eqb_eq in Et. cbn [pdu_hdr]. subst.
+  match type of Et with crc16 (firstn _ (?hb' ++ ?d ++ ?c ++ ?r3)) = _ =>
+    rewrite (app_assoc hb' d (c ++ r3)) in Et; rewrite firstn_drop_suffix in Et;
+    exists ((hb' ++ d) ++ c), r3
+  end.
+  splits.
+  - rewrite <- !app_assoc. reflexivity.
+  - apply crc_frame_ok_intro; assumption.
+  - rewrite !blen_app in *. lia.
+Qed.
